@@ -26,9 +26,14 @@ LEVEL_TEXT = ("Theorems about the smooth-dynamics kernels regenerated from passi
               "`_cacc_world/_cfrc/_cfrc_backward/_qfrc_bias`; at rest cfrc = I cacc (linear) and `_cacc_branch` propagates the root acceleration.  fwd_acceleration: `_qfrc_smooth` = passive - "
               "bias + actuator + applied, 0 for sleeping trees.  CRB: closed form of `_M`'s write list (row i of the lower triangle over the ancestor chain, armature added exactly once, the "
               "walk ends with the chain or the row) and `M_writes_in_row` (no write leaves row i), symmetry of the inertia form.  Real fwd_position/velocity/actuation/acceleration are "
-              "compared with mujoco.mj_forward on regression inputs of repaired defects (run first) and on random models.")
-LEVEL_NOTE = ("C02_partial: `support._apply_ft` (xfrc_applied / fluid / flex wrenches to joint space), the flex passive kernels, `_tendon_dot` and the LDL factor/solve kernels are not in Gen "
-              "(nested tile kernels / not on the allow-list) and are covered by the differential oracle only; launch composition (level-order accumulation = C01Tree lemma) and float32 "
+              "compared with mujoco.mj_forward on regression inputs of repaired defects (run first), on a forced family of tendon-armature models and on random models.  Tendon armature: its two "
+              "contributions are isolated on both sides and checked on their own scale — the bias term J^T armature (Jdot . qvel) produced by `smooth.tendon_bias` on a zero vector against "
+              "MuJoCo's qfrc_bias - mj_rne (and against a finite difference of MuJoCo's ten_J along qvel, which uses no implementation of Jdot), the inertia term M - M(armature = 0) against "
+              "MuJoCo's and against armature J^T J; the forced family puts every dof kind (hinge, slide, the three ball dofs, free translation, each of the three free rotations; as the site's "
+              "own joint and as an ancestor; across trees; through a pulley; next to a fixed armature tendon) under a spatial armature tendon with all velocity components non-zero, in rotation.")
+LEVEL_NOTE = ("C02_partial: `support._apply_ft` (xfrc_applied / fluid / flex wrenches to joint space), the flex passive kernels, `_tendon_dot` / `_accumulate_jac_dot_chain` (time derivative of the tendon "
+              "Jacobian; per-dof-kind rule for cdof_dot) and the LDL factor/solve kernels are not in Gen (nested tile kernels / not on the allow-list) and are covered by the differential oracle "
+              "only — for `_tendon_dot` by the isolated tendon-bias comparison over every dof kind (hit counters `ten-Jdot-dof-*` record which kinds carried a non-zero Jdot entry); launch composition (level-order accumulation = C01Tree lemma) and float32 "
               "round-off are not formalised.  Found by this check and repaired in /repo: 'fix: ellipsoid fluid model dropped the moment arm of geoms that are not at the body's centre of "
               "mass' (the former witness is now the positive theorem `fluid_ellipsoid_wrench_at_geom`; its trigger input is regression case 1).  Repaired after another check's report: 'fix: "
               "_M and _tendon_armature walked past the row of a simple dof' (`M_row_closed` now carries the row bound; regression case 3).  Deviations from MuJoCo C still present, reported "
@@ -36,7 +41,10 @@ LEVEL_NOTE = ("C02_partial: `support._apply_ft` (xfrc_applied / fluid / flex wre
               "body has gravcomp > 0).  Flex models are generated without SPRING/DAMPER disable bits (MuJoCo's flex elasticity ignores the bits, mujoco_warp honours them).  Trusted: Lean "
               "kernel + Mathlib, tier-B translator (interception), Spec/Passive.lean as a transcription of engine_passive.c / engine_core_smooth.c.")
 ASSUMPTIONS = ["regular quaternions in qpos (norm 0.2..3); moderate states (|qvel| ~ 1); tolerance 2e-4 * (1 + max|reference vector|) for forces/velocities (5e-4 for fluid chains), 1e-4 for M; "
-               "qacc_smooth is checked by backward error |M q - f| <= 1e-3 (|M||q| + |f|) + 1e-5 (independent of cond(M)); the first observed deviation of a case is reported"]
+               "qacc_smooth is checked by backward error |M q - f| <= 1e-3 (|M||q| + |f|) + 1e-5 (independent of cond(M)); the first observed deviation of a case is reported",
+               "tendon-armature terms on their own scale: |tendon_bias - (qfrc_bias - mj_rne)| <= 4e-5 S + 2e-6 F with S = sum_t arm_t max|J_t| sum_i |Jdot_ti qvel_i| (Jdot from the float64 finite "
+               "difference) and F = sum_t arm_t max|J_t| |qvel|_1^2 (observed on the unchanged tree over 480 forced cases: <= 1.9e-6 S, <= 1.3e-7 F); |M - M0 - (M_mj - M0)| <= 2e-4 max|term| + "
+               "1e-5 max|M0| (observed <= 1.6e-6 max|M0|); site-geom-site wrapping under tendon armature is outside the domain (not generated; `_tendon_dot` has no wrap derivative)"]
 
 
 def _f(x):
@@ -227,6 +235,185 @@ def gen_flex(rng):
   return xml, tags
 
 
+# ---------------------------------------------------------------------------------------------------------------------------------------------------------
+# Forced family: tendon armature through every joint type.  Tendon armature contributes arm * J^T J to M and J^T arm (Jdot . qvel) to qfrc_bias; Jdot of a spatial
+# tendon walks the kinematic chains of its sites, with a separate rule per dof kind (hinge, slide, the three ball dofs, translational and rotational free dofs).
+# The layouts below put each dof kind (as the site's own joint and as an ancestor) under an armature tendon deterministically, in rotation.
+TENDON_LAYOUTS = [
+  # (name, bodies = [(parent index or -1, [joint types])], spatial paths = [[site | "w0" | "w1" | ("pulley", divisor)]])
+  ("free", [(-1, ["free"])], [["w0", "s0"]]),
+  ("free-ancestor-hinge", [(-1, ["free"]), (0, ["hinge"])], [["w0", "s1"]]),
+  ("free-free", [(-1, ["free"]), (-1, ["free"])], [["s0", "s1"]]),
+  ("free-ball-hinge", [(-1, ["free"]), (0, ["ball"]), (1, ["hinge"])], [["w0", "s2"]]),
+  ("ball-hinge", [(-1, ["ball"]), (0, ["hinge"])], [["w0", "s1"]]),
+  ("hinge-slide", [(-1, ["hinge", "slide"]), (0, ["slide", "hinge"])], [["w0", "s1"]]),
+  ("free-pulley", [(-1, ["free"]), (-1, ["hinge"]), (1, ["slide"])], [["w0", "s0", ("pulley", 2.0), "w1", "s2"]]),
+  ("free-siblings", [(-1, ["free"]), (0, ["slide", "ball"]), (0, ["hinge"])], [["s1", "s2"], ["w0", "s1", "s2"]]),
+  ("slide-ball", [(-1, ["slide"]), (0, ["ball"]), (1, ["slide"])], [["w1", "s2", "s0"]]),
+  ("free-ancestor-free-tree", [(-1, ["free"]), (0, ["slide"]), (-1, ["free"]), (2, ["ball"])], [["s1", "s3"], ["w0", "s2"]]),
+]
+
+
+def gen_tendon_armature(rng, k):
+  """k-th forced model: layout k mod len(TENDON_LAYOUTS); every spatial tendon has armature > 0; returns (xml, tags)"""
+  name, bodies, paths = TENDON_LAYOUTS[k % len(TENDON_LAYOUTS)]
+  rnd = k // len(TENDON_LAYOUTS)
+  tags = ["forced-tendon-armature", "layout-" + name, "ten-armature", "spatial-tendon"]
+  children = {}
+  for b, (p, _) in enumerate(bodies):
+    children.setdefault(p, []).append(b)
+  hs = []
+
+  def body_xml(b, pad):
+    p, jts = bodies[b]
+    pos = rng.uniform(-0.5, 0.5, size=3)
+    if p == -1:
+      pos[2] = rng.uniform(0.3, 1.2)
+    q = rng.normal(size=4)
+    out = [f'{pad}<body name="b{b}" pos="{_f(pos)}" quat="{_f(q / np.linalg.norm(q))}">']
+    for i, jt in enumerate(jts):
+      arm = f' armature="{_f([rng.uniform(0.0, 0.3)])}"' if rng.random() < 0.5 else ""
+      if jt in ("free", "ball"):
+        out.append(f'{pad}  <joint name="j{b}_{i}" type="{jt}"{arm}/>')
+      else:
+        ax = rng.normal(size=3)
+        out.append(f'{pad}  <joint name="j{b}_{i}" type="{jt}" axis="{_f(ax / np.linalg.norm(ax))}" pos="{_f(rng.uniform(-0.05, 0.05, size=3))}"{arm}/>')
+        hs.append(f"j{b}_{i}")
+    gt = ["sphere", "box", "capsule"][int(rng.integers(3))]
+    size = {"sphere": rng.uniform(0.05, 0.15, size=1), "box": rng.uniform(0.04, 0.2, size=3), "capsule": rng.uniform(0.04, 0.15, size=2)}[gt]
+    out.append(f'{pad}  <geom type="{gt}" size="{_f(size)}" pos="{_f(rng.uniform(-0.1, 0.1, size=3))}" density="{_f([rng.uniform(200, 2000)])}"/>')
+    out.append(f'{pad}  <site name="s{b}" pos="{_f(rng.uniform(-0.3, 0.3, size=3))}"/>')
+    for c in children.get(b, []):
+      out += body_xml(c, pad + "  ")
+    out.append(f"{pad}</body>")
+    return out
+
+  wb = [f'    <site name="w0" pos="{_f(rng.uniform(-1, 1, size=3) + [0, 0, 1.5])}"/>', f'    <site name="w1" pos="{_f(rng.uniform(-1, 1, size=3))}"/>']
+  for r in children[-1]:
+    wb += body_xml(r, "    ")
+  tend = []
+  for t, path in enumerate(paths):
+    if t > 0 and rng.random() < 0.4:
+      continue
+    at = f' armature="{_f([rng.uniform(0.05, 2.0)])}"'
+    if rng.random() < 0.3:
+      at += f' stiffness="{_f([rng.uniform(0, 4)])}" damping="{_f([rng.uniform(0, 1)])}"'
+    body = ""
+    for e in path:
+      if isinstance(e, tuple):
+        body += f'<pulley divisor="{_f([e[1]])}"/>'
+        tags.append("ten-pulley")
+      else:
+        body += f'<site site="{e}"/>'
+    tend.append(f'    <spatial name="ts{t}"{at}>{body}</spatial>')
+  if hs and (k % 3 + rnd) % 2 == 1:
+    # a fixed tendon with armature next to the spatial one (Jdot = 0, M += arm c c^T); shares dofs with the spatial tendon's chain
+    js = list(rng.choice(hs, size=min(len(hs), int(rng.integers(1, 3))), replace=False))
+    body = "".join(f'<joint joint="{j}" coef="{_f([rng.normal()])}"/>' for j in js)
+    tend.append(f'    <fixed name="tf" armature="{_f([rng.uniform(0.05, 1.0)])}">{body}</fixed>')
+    tags.append("fixed-tendon")
+  jac = ("dense", "sparse")[(k + rnd) % 2] if rng.random() < 0.8 else "auto"
+  tags.append("jac-" + jac)
+  grav = f' gravity="{_f(rng.normal(size=3) * 6)}"' if rng.random() < 0.5 else ""
+  xml = f"""<mujoco>
+  <compiler angle="radian"/>
+  <option jacobian="{jac}"{grav}/>
+  <default><geom contype="0" conaffinity="0"/></default>
+  <worldbody>
+{chr(10).join(wb)}
+  </worldbody>
+  <tendon>
+{chr(10).join(tend)}
+  </tendon>
+</mujoco>
+"""
+  return xml, tags
+
+
+def tendon_state(rng, mjm, mjd, k):
+  """random configuration; every velocity component bounded away from zero (all three rotational dofs of ball / free joints turn), speed class in rotation"""
+  from harness.gen import models
+  models.random_state(rng, mjm, mjd, qpos_scale=0.5, qvel_scale=1.0, unnormalized=True)
+  scale = (1.0, 2.0, 0.5)[(k + k // len(TENDON_LAYOUTS)) % 3]
+  v = rng.normal(size=mjm.nv)
+  mjd.qvel[:] = np.sign(v) * (0.4 + np.abs(v)) * scale
+  return scale
+
+
+def _ten_J_dense(mjm, mjd):
+  J = np.zeros((mjm.ntendon, mjm.nv))
+  for t in range(mjm.ntendon):
+    a, n = int(mjm.ten_J_rowadr[t]), int(mjm.ten_J_rownnz[t])
+    J[t, mjm.ten_J_colind[a: a + n]] = mjd.ten_J[a: a + n]
+  return J
+
+
+def tendon_refs(mjm, mjd):
+  """MuJoCo-side values of the two contributions of tendon armature, each isolated, plus a reference that uses no implementation of Jdot at all.
+
+  bias term  J^T arm (Jdot . qvel):  MuJoCo = qfrc_bias - mj_rne(flg_acc = 0);  third reference = central finite difference of MuJoCo's ten_J along qvel (float64).
+  M term     sum_t arm_t J_t^T J_t:  MuJoCo = M - M(same model, tendon_armature = 0);  identity = arm J^T J on M's sparsity pattern.
+  `mjd` must hold mj_forward's results.  Magnitudes for tolerances come with it (see `bias_scale`, `bias_floor`, `M0`).
+  """
+  import copy
+  import mujoco
+  nv = mjm.nv
+  arm = np.asarray(mjm.tendon_armature, dtype=np.float64)
+  J = _ten_J_dense(mjm, mjd)
+  qvel = np.asarray(mjd.qvel, dtype=np.float64)
+  out = {}
+  rne = np.zeros(nv)
+  mujoco.mj_rne(mjm, mjd, 0, rne)
+  out["bias_mj"] = np.asarray(mjd.qfrc_bias, dtype=np.float64) - rne
+  eps = 1e-6
+  d2 = mujoco.MjData(mjm)
+  Js = []
+  for sgn in (1.0, -1.0):
+    d2.qpos[:] = mjd.qpos
+    mujoco.mj_normalizeQuat(mjm, d2.qpos)
+    mujoco.mj_integratePos(mjm, d2.qpos, qvel, sgn * eps)
+    mujoco.mj_kinematics(mjm, d2)
+    mujoco.mj_comPos(mjm, d2)
+    mujoco.mj_tendon(mjm, d2)
+    Js.append(_ten_J_dense(mjm, d2))
+  Jdot = (Js[0] - Js[1]) / (2 * eps)
+  out["bias_fd"] = J.T @ (arm * (Jdot @ qvel))
+  # magnitude of what is summed (no cancellation between dofs): float32 round-off of the stage is a small multiple of eps32 times this ...
+  out["bias_scale"] = float(np.sum(arm * np.abs(J).max(axis=1) * (np.abs(Jdot) @ np.abs(qvel))))
+  # ... and entries of Jdot are themselves sums of products velocity x axis x lever arm that may cancel: a floor from the uncancelled magnitudes (lever arms are O(1) here)
+  out["bias_floor"] = float(np.sum(arm * np.abs(J).max(axis=1)) * np.abs(qvel).sum() ** 2)
+  # which dof kinds really carry a time-varying Jacobian entry of an armature tendon in this state (vacuity record)
+  kinds = set()
+  for t in np.nonzero(arm > 0)[0]:
+    for i in np.nonzero(np.abs(Jdot[t] * qvel) > 1e-6 * (1e-30 + np.abs(Jdot[t] * qvel).max()))[0]:
+      j = int(mjm.dof_jntid[i])
+      jt = int(mjm.jnt_type[j])
+      loc = int(i - mjm.jnt_dofadr[j])
+      kinds.add({0: "free-rot%d" % (loc - 3) if loc >= 3 else "free-trans", 1: "ball", 2: "slide", 3: "hinge"}[jt])
+  out["kinds"] = kinds
+  # M term
+  m0 = copy.copy(mjm)
+  m0.tendon_armature[:] = 0.0
+  d0 = mujoco.MjData(m0)
+  d0.qpos[:] = mjd.qpos
+  mujoco.mj_kinematics(m0, d0)
+  mujoco.mj_comPos(m0, d0)
+  mujoco.mj_tendon(m0, d0)
+  mujoco.mj_makeM(m0, d0)
+  dense = lambda v: _sym2dense(mjm, v)
+  out["M0"] = dense(d0.M)
+  out["M_mj"] = dense(mjd.M) - out["M0"]
+  out["M_id"] = ((J.T * arm) @ J) * (dense(np.ones(mjd.M.size)) != 0)
+  return out
+
+
+def _sym2dense(mjm, v):
+  import mujoco
+  M = np.zeros((mjm.nv, mjm.nv))
+  mujoco.mju_sym2dense(M, np.ascontiguousarray(v, dtype=np.float64), mjm.M_rownnz, mjm.M_rowadr, mjm.M_colind)
+  return M
+
+
 # Regression inputs of defects this check (or a neighbouring one) found and that were repaired in /repo; they run first and must pass.
 REGRESSIONS = [
   # d9b6385 "fix: ellipsoid fluid model dropped the moment arm of geoms that are not at the body's centre of mass": MuJoCo qfrc_fluid[4] = 7.854, old code 0
@@ -254,16 +441,17 @@ def _close(a, b, tol):
   return (not b.size) or np.abs(a - b).max() <= tol * (1.0 + np.abs(b).max())
 
 
-def _run(ctx, ncases, rec, nflex=0):
+def _run(ctx, ncases, rec, nflex=0, nten=0):
   thorough = bool(getattr(ctx, "thorough", False))
   import mujoco
   import warp as wp
   import mujoco_warp as mjw
   from harness.gen import models
+  from mujoco_warp._src import smooth
   rng = np.random.default_rng(ctx.seed * 1000 + 2)
   acc = Acc()
 
-  def one(xml, tags, kind, qvel=None):
+  def one(xml, tags, kind, qvel=None, k=0):
     try:
       mjm = mujoco.MjModel.from_xml_string(xml)
     except ValueError as e:
@@ -276,6 +464,8 @@ def _run(ctx, ncases, rec, nflex=0):
     models.random_state(rng, mjm, mjd, qpos_scale=0.03 if kind == "flex" else 0.5, qvel_scale=0.3 if kind == "flex" else 1.0, unnormalized=True)
     if qvel is not None:
       mjd.qvel[:] = qvel
+    elif kind == "tendon-armature":
+      tags = tags + [f"qvel-scale-{tendon_state(rng, mjm, mjd, k):g}"]
     elif rng.random() < 0.1:
       mjd.qvel[:] = 0.0
       tags = tags + ["qvel0"]
@@ -297,6 +487,12 @@ def _run(ctx, ncases, rec, nflex=0):
     d = mjw.put_data(mjm, mjd, nworld=nworld)
     mjw.fwd_position(m, d)
     mjw.fwd_velocity(m, d)
+    ten_bias = None
+    if np.any(mjm.tendon_armature > 0):
+      # the stage itself on a zero vector: J^T arm (Jdot . qvel) from d.cvel / d.cdof_dot / d.ten_J
+      ten_bias = wp.zeros((nworld, mjm.nv), dtype=float)
+      smooth.tendon_bias(m, d, ten_bias)
+      ten_bias = ten_bias.numpy()
     mjw.fwd_actuation(m, d)
     mjw.fwd_acceleration(m, d, factorize=True)
     mujoco.mj_forward(mjm, mjd)
@@ -305,6 +501,23 @@ def _run(ctx, ncases, rec, nflex=0):
     nv = mjm.nv
     Mfull = np.zeros((nv, nv))
     mujoco.mju_sym2dense(Mfull, mjd.M, mjm.M_rownnz, mjm.M_rowadr, mjm.M_colind)
+    tr = None
+    if ten_bias is not None and np.all(np.isfinite(mjd.qfrc_bias)) and np.all(np.isfinite(mjd.M)):
+      tr = tendon_refs(mjm, mjd)
+      acc.hit("ten-armature-isolated")
+      for kd in sorted(tr["kinds"]):
+        acc.hit("ten-Jdot-dof-" + kd)
+      if np.abs(tr["bias_mj"]).max() > 1e-3:
+        acc.hit("ten-bias-active")
+      if np.abs(tr["M_mj"]).max() > 1e-3:
+        acc.hit("ten-M-active")
+      # the references among themselves (float64): MuJoCo's Jdot against the finite difference of its own ten_J, MuJoCo's M term against arm J^T J
+      fd_ok = np.abs(tr["bias_fd"] - tr["bias_mj"]).max() <= 1e-6 * tr["bias_scale"] + 1e-7 * tr["bias_floor"] + 1e-12
+      id_ok = np.abs(tr["M_id"] - tr["M_mj"]).max() <= 1e-9 * (1 + np.abs(tr["M_mj"]).max() + np.abs(tr["M0"]).max())
+      if not fd_ok:
+        acc.hit("ten-bias-fd-and-mujoco-differ")
+      if not id_ok:
+        acc.hit("ten-M-identity-and-mujoco-differ")
 
     def trigger(nm, a, b):
       """stable trigger id of an OBSERVED deviation (the model is consulted only to name a deviation that has been observed)"""
@@ -317,24 +530,36 @@ def _run(ctx, ncases, rec, nflex=0):
     # quantities in dependency order; the FIRST observed deviation of a case is reported (later ones are its consequences) and the case ends
     bad = False
     for w in range(nworld):
-      checks = [("M", d.M.numpy()[w][: mjd.M.size], mjd.M, "smooth.crb/tendon_armature", 1e-4),
-                ("cvel", d.cvel.numpy()[w], mjd.cvel, "smooth.com_vel", 2e-4), ("cdof_dot", d.cdof_dot.numpy()[w], mjd.cdof_dot, "smooth.com_vel", 2e-4),
+      checks = [("M", d.M.numpy()[w][: mjd.M.size], mjd.M, "smooth.crb/tendon_armature", 1e-4)]
+      if tr is not None:
+        # tendon-armature term of M alone: 2e-4 of the term + float32 round-off of the CRB part that is subtracted
+        checks.append(("M_tendon_armature", _sym2dense(mjm, d.M.numpy()[w][: mjd.M.size]) - tr["M0"], tr["M_mj"], "smooth.tendon_armature", None,
+                       2e-4 * np.abs(tr["M_mj"]).max() + 1e-5 * np.abs(tr["M0"]).max()))
+      checks += [("cvel", d.cvel.numpy()[w], mjd.cvel, "smooth.com_vel", 2e-4), ("cdof_dot", d.cdof_dot.numpy()[w], mjd.cdof_dot, "smooth.com_vel", 2e-4),
                 ("qfrc_spring", d.qfrc_spring.numpy()[w], mjd.qfrc_spring, "passive.passive", 2e-4), ("qfrc_damper", d.qfrc_damper.numpy()[w], mjd.qfrc_damper, "passive.passive", 2e-4),
                 ("qfrc_gravcomp", d.qfrc_gravcomp.numpy()[w], mjd.qfrc_gravcomp, "passive.passive", 2e-4),
                 ("qfrc_fluid", d.qfrc_fluid.numpy()[w], mjd.qfrc_fluid, "passive.passive", 5e-4),     # sqrt / pow chains of the fluid models in float32
-                ("qfrc_passive", d.qfrc_passive.numpy()[w], mjd.qfrc_passive, "passive.passive", 5e-4 if "fluid" in tags else 2e-4),
-                ("qfrc_bias", d.qfrc_bias.numpy()[w], mjd.qfrc_bias, "smooth.rne/tendon_bias", 2e-4),
+                ("qfrc_passive", d.qfrc_passive.numpy()[w], mjd.qfrc_passive, "passive.passive", 5e-4 if "fluid" in tags else 2e-4)]
+      if tr is not None:
+        # tendon-armature term of qfrc_bias alone (tolerance from the magnitudes of what the stage sums; clean-tree error is <= 2e-6 bias_scale, <= 1.3e-7 bias_floor)
+        checks.append(("tendon_bias", ten_bias[w], tr["bias_mj"], "smooth.tendon_bias", None, 4e-5 * tr["bias_scale"] + 2e-6 * tr["bias_floor"] + 1e-9))
+      checks += [("qfrc_bias", d.qfrc_bias.numpy()[w], mjd.qfrc_bias, "smooth.rne/tendon_bias", 2e-4),
                 ("qfrc_actuator", d.qfrc_actuator.numpy()[w], mjd.qfrc_actuator, "forward.fwd_actuation", 2e-4),
                 ("qfrc_smooth", d.qfrc_smooth.numpy()[w], mjd.qfrc_smooth, "forward.fwd_acceleration", 5e-4 if "fluid" in tags else 2e-4)]
-      for nm, a, b, site, tol in checks:
+      for nm, a, b, site, tol, *atol in checks:
         b = np.asarray(b, dtype=np.float64)
         a = np.asarray(a, dtype=np.float64).reshape(b.shape)
         if not np.all(np.isfinite(b)):
           acc.hit("skip-nonfinite-reference")
           bad = True
           break
-        if not _close(a, b, tol):
+        if (not (np.abs(a - b).max() <= atol[0])) if atol else (not _close(a, b, tol)):
           trig, why = trigger(nm, a, b)
+          if nm == "tendon_bias":
+            why = (f": J^T armature (Jdot . qvel) of smooth.tendon_bias alone vs MuJoCo's qfrc_bias - mj_rne (tolerance {atol[0]:.3g}); the finite difference of MuJoCo's ten_J along qvel "
+                   f"{'agrees with MuJoCo' if fd_ok else 'does NOT agree with MuJoCo either'} (max |d| {np.abs(tr['bias_fd'] - tr['bias_mj']).max():.3g})")
+          if nm == "M_tendon_armature":
+            why = (f": M - M(armature = 0) vs MuJoCo's (tolerance {atol[0]:.3g}); armature J^T J on M's pattern {'agrees with MuJoCo' if id_ok else 'does NOT agree with MuJoCo either'}")
           acc.find(f"{nm} differs from MuJoCo C (max |d| {np.abs(a - b).max():.3g}, scale {1 + np.abs(b).max():.3g}){why}", site, trig, **info)
           bad = True
           break
@@ -364,6 +589,9 @@ def _run(ctx, ncases, rec, nflex=0):
   def scenario():
     for name, xml, qvel in REGRESSIONS:
       one(xml, ["regression-" + name] + (["fluid"] if "density" in xml else []), "regression", qvel=qvel)
+    for c in range(nten):
+      xml, tags = gen_tendon_armature(rng, c + ctx.seed * nten)
+      one(xml, tags, "tendon-armature", k=c + ctx.seed * nten)
     for c in range(ncases):
       xml, tags = gen_model(rng)
       one(xml, tags, "tree")
@@ -383,7 +611,10 @@ RULE = ("random forests (1-8 bodies, <= 2 joints per body, free/ball/hinge/slide
         "gravcomp; option density / viscosity / wind (inertia-box model, and geoms with fluidshape=ellipsoid and random fluidcoef), random gravity, spring/damper/gravity disable flags, "
         "jacobian dense/sparse/auto; fixed and spatial tendons with (polynomial) stiffness, damping, springlength dead-band and armature; motors; 1-2 worlds; random qpos (unnormalised "
         "quaternions), qvel, qfrc_applied, xfrc_applied, ctrl; plus flexcomp cloth grids (edge stiffness/damping, elasticity with every elastic2d mode) on the flex tier.  "
-        "Three fixed regression inputs of repaired defects run first.  fwd_position+fwd_velocity+fwd_actuation+fwd_acceleration vs mujoco.mj_forward on M (CSR), cvel, cdof_dot, qfrc_spring/damper/gravcomp/fluid/passive/bias/actuator/smooth and "
+        "Three fixed regression inputs of repaired defects run first, then the forced tendon-armature family (10 layouts in rotation: free / free ancestor + hinge / two free trees / "
+        "free + ball + hinge / ball + hinge / hinge+slide chain / free + pulley + slide chain / siblings under a free body / slide + ball + slide / free + slide vs free + ball; spatial tendons "
+        "with armature 0.05..2, optional fixed armature tendon, dense / sparse, |qvel_i| >= 0.4 x {0.5, 1, 2}); whenever a model has tendon armature the bias term of smooth.tendon_bias alone "
+        "and the M term alone are compared with MuJoCo's and with a finite-difference / J^T J reference.  fwd_position+fwd_velocity+fwd_actuation+fwd_acceleration vs mujoco.mj_forward on M (CSR), cvel, cdof_dot, qfrc_spring/damper/gravcomp/fluid/passive/bias/actuator/smooth and "
         "qacc_smooth (backward error); distinct = (kind, nbody, njnt, nv, ntendon, joint types, feature tags)")
 
 
@@ -394,10 +625,10 @@ def correspondence(ctx):
   if ctx.thorough:
     from harness.corr import func_corr
     fc = func_corr.run(FUNCS, ncases=64, seed=ctx.seed, int_ranges={"util_misc._poly_force": (0, 1), "passive.geom_semiaxes": (0, 7), "passive.ellipsoid_max_moment": (0, 2)})
-  acc, kc = _run(ctx, 150 if ctx.thorough else 40, True, nflex=12 if ctx.thorough else 4)
+  acc, kc = _run(ctx, 150 if ctx.thorough else 40, True, nflex=12 if ctx.thorough else 4, nten=60 if ctx.thorough else 10)
   return result(acc, RULE, kc=kc, fc=fc)
 
 
 def search(ctx, breaks):
-  acc, _ = _run(ctx, 300, False, nflex=30)
+  acc, _ = _run(ctx, 300, False, nflex=30, nten=120)
   return search_result(acc, "mujoco.mj_forward")
